@@ -16,12 +16,12 @@ Proof. intros C is_gc ops. apply Inv_run. apply Inv_init. Qed.
 Print Assumptions C06_invariant_reachable.
 
 (* ---- clause 1: abort.  For every state outside a write group and EVERY insertion sequence:
-   pack-names, upload/, the visible keys and the object's registered packs are exactly as before. *)
+   pack-names, upload/ and the visible keys are exactly as before. *)
 Theorem C06_abort_invisible :
   forall C is_gc s ks, wg s = None -> broken s = false ->
     let s' := run C is_gc (Start :: map Ins ks ++ [Abort]) s in
     listed s' = listed s /\ upload s' = upload s /\ visible s' = visible s /\
-    wg s' = None /\ broken s' = false /\ resident s' = resident s.
+    wg s' = None /\ broken s' = false.
 Proof. exact abort_invisible. Qed.
 Print Assumptions C06_abort_invisible.
 
@@ -31,16 +31,15 @@ Example C06_abort_invisible_ex :
   visible (run cat_2a true (Start :: map Ins [1; 11; 43] ++ [Abort]) s) = [41].
 Proof. vm_compute. repeat split; reflexivity. Qed.
 
-(* ---- clause 1 under FAULTS: the transport delete inside NewPack.abort() fails (upload/ gone,
-   transport error), abort_write_group called with or without suppress_errors.  For every state
-   outside a write group and EVERY insertion sequence: nothing of the group is visible on disk
-   or to the object, the object can start its next write group, and the state is exactly that
-   of the non-faulting abort. *)
+(* ---- clause 1 under FAULTS: every delete on upload/ fails while abort_write_group runs (upload/
+   gone, transport error), with or without suppress_errors.  For every state outside a write group
+   and EVERY insertion sequence: nothing of the group is visible on disk or to the object, the
+   object can start its next write group, and the state is exactly that of the non-faulting abort. *)
 Theorem C06_abort_fault_invisible :
   forall C is_gc s ks sup, wg s = None -> broken s = false ->
     let s' := run C is_gc (Start :: map Ins ks ++ [AbortF sup]) s in
     listed s' = listed s /\ upload s' = upload s /\ visible s' = visible s /\ view s' = view s /\
-    wg s' = None /\ broken s' = false /\ resident s' = resident s /\
+    wg s' = None /\ broken s' = false /\
     snd (step C is_gc Start s') = ROk /\
     s' = run C is_gc (Start :: map Ins ks ++ [Abort]) s.
 Proof. exact abort_fault_invisible. Qed.
@@ -52,26 +51,31 @@ Example C06_abort_fault_ex :
   snd (step cat_knit false (AbortF false) (run cat_knit false [Start; Ins 42] s)) = RErr ETransport.
 Proof. vm_compute. split; reflexivity. Qed.
 
-(* ... but NOT for a RESUMED write group: the exception leaves _abort_write_group before the loop
-   over the resumed packs, which stay in the object's indices and in _resumed_packs; the model
-   makes no claim about the object afterwards (broken).  On the real code the next commit of the
-   object publishes them: candidate finding C06-abort-fault-skips-resumed-packs *)
-Theorem C06_abort_fault_resumed_partial :
-  exists ops sup,
-    let s := run cat_2a true ops init in
-    (exists w, wg s = Some w /\ wres w <> []) /\
-    broken (fst (step cat_2a true (AbortF sup) s)) = true /\
-    broken (fst (step cat_2a true Abort s)) = false.
-Proof.
-  exists [Start; Ins 51; Suspend; Resume [TName [51]]; Ins 41], true. vm_compute.
-  repeat split. eexists. split; [reflexivity|intro H; discriminate H].
-Qed.
-Print Assumptions C06_abort_fault_resumed_partial.
+(* ... and for ANY write group, resumed or not (since /repo 8028393; was the partial statement
+   C06_abort_fault_resumed_partial / finding C06-abort-fault-skips-resumed-packs): pack-names, upload/
+   and the visible keys unchanged, the object sees exactly what is committed, no revision stays
+   registered as new, and the object can start its next write group.  (The resumed packs could not be
+   deleted: they are still suspended in upload/.) *)
+Theorem C06_abort_fault_any_group :
+  forall C is_gc s w sup, wg s = Some w -> broken s = false ->
+    let s' := fst (step C is_gc (AbortF sup) s) in
+    listed s' = listed s /\ upload s' = upload s /\ visible s' = visible s /\
+    view s' = visible s /\ wg s' = None /\ broken s' = false /\ newrevs s' = [] /\
+    snd (step C is_gc Start s') = ROk.
+Proof. exact abort_fault_any. Qed.
+Print Assumptions C06_abort_fault_any_group.
+
+Example C06_abort_fault_resumed_ex :
+  let s := run cat_2a true [Start; Ins 51; Suspend; Resume [TName [51]]; Ins 41] init in
+  (exists w, wg s = Some w /\ wres w <> []) /\ view s = [51; 41] /\
+  view (fst (step cat_2a true (AbortF true) s)) = [] /\
+  visible (run cat_2a true [AbortF true; Start; Ins 52; Commit] s) = [52].
+Proof. vm_compute. repeat split. eexists. split; [reflexivity|intro H; discriminate H]. Qed.
 
 (* abort of a RESUMED write group: pack-names unchanged; exactly the resumed packs leave upload/ *)
 Theorem C06_abort_resumed :
   forall C is_gc s ts r ks, wg s = None -> broken s = false ->
-    resume_toks (upload s) (resident s) [] ts = RsOk r ->
+    resume_toks (upload s) [] ts = RsOk r ->
     let s' := run C is_gc (Resume ts :: map Ins ks ++ [Abort]) s in
     listed s' = listed s /\ upload s' = nremove_all r (upload s) /\ wg s' = None /\ broken s' = false.
 Proof. exact abort_resumed. Qed.
@@ -107,8 +111,7 @@ Theorem C06_suspend_resume_commit_eq_commit_2a :
     (snd b = ROk -> upload (fst a) = upload (fst b) /\ wg (fst a) = wg (fst b)).
 Proof.
   intros C s w HI Hb Hw Hf. apply (suspend_resume_commit C true true s w HI Hb Hw Hf).
-  - destruct (HI Hb) as [Hm _]. split; intros _; [reflexivity|apply Hm; reflexivity].
-  - intro H; discriminate.
+  destruct (HI Hb) as [Hm _]. split; intros _; [reflexivity|apply Hm; reflexivity].
 Qed.
 Print Assumptions C06_suspend_resume_commit_eq_commit_2a.
 
@@ -139,7 +142,7 @@ Proof.
   assert (Hup : upload s = upload s0).
   { unfold s. simpl. rewrite (step_start C is_gc s0 Hw Hb). simpl.
     destruct (run_inserts_shape C is_gc ks
-                (St (listed s0) (upload s0) (Some (WG [] [])) (mcp s0) (newrevs s0) (resident s0) false)
+                (St (listed s0) (upload s0) (Some (WG [] [])) (mcp s0) (newrevs s0) false)
                 (WG [] []) eq_refl eq_refl) as (_ & H2 & _). exact H2. }
   apply (suspend_resume_commit C is_gc true s (WG ks [])).
   - apply Inv_run. exact HI.
@@ -147,7 +150,6 @@ Proof.
   - exact Hw'.
   - simpl. rewrite Hup. exact Hf.
   - exact Hg.
-  - intro H; discriminate.
 Qed.
 Print Assumptions C06_suspend_resume_commit_eq_commit_fresh.
 
@@ -158,14 +160,14 @@ Example C06_suspend_resume_commit_fresh_knit_ex :
   snd (step cat_knit false Commit (suspend_resume cat_knit false true (run cat_knit false [Ins 41; Ins 11] s))) = ROk.
 Proof. vm_compute. repeat split; reflexivity. Qed.
 
-(* the general form: with or without a reopen, any format, any reachable state, under the guards
+(* the general form: with or without a reopen (also on the SAME object, also for a group that was
+   itself resumed -- since /repo 8028393), any format, any reachable state, under the single guard
    "the object's missing-compression-parent memory is empty exactly when the group lacks none"
-   (executable: both sides are lists) and, without a reopen, "tokens not registered in this object" *)
+   (executable: both sides are lists) *)
 Theorem C06_suspend_resume_commit_eq_commit_guarded :
   forall C is_gc (reopen : bool) s w,
     Inv C is_gc s -> broken s = false -> wg s = Some w -> ~ In (wnew w) (upload s) ->
     (mcp s = [] <-> missing_comp C is_gc (view s) (wg_items w) = []) ->
-    (reopen = false -> forall n, In n (wres w) \/ n = wnew w -> ~ In n (resident s)) ->
     let a := step C is_gc Commit (suspend_resume C is_gc reopen s) in
     let b := step C is_gc Commit s in
     snd a = snd b /\
@@ -195,15 +197,15 @@ Theorem C06_resumed_missing_parent_is_refused :
 Proof. exact resumed_missing_parent_is_refused. Qed.
 Print Assumptions C06_resumed_missing_parent_is_refused.
 
-(* same object, write group that was itself resumed: suspend ; resume fails (AssertionError of
-   add_pack_to_memory) -- candidate finding C06-resume-again-on-same-object *)
-Theorem C06_resume_again_same_object_refuted :
-  exists ops,
-    let s := run cat_2a true ops init in
-    broken s = false /\ (exists w, wg s = Some w) /\
-    broken (suspend_resume cat_2a true false s) = true.
-Proof. exact resume_again_same_object_refuted. Qed.
-Print Assumptions C06_resume_again_same_object_refuted.
+(* repaired by /repo 8028393 (was C06_resume_again_same_object_refuted, finding
+   C06-resume-again-on-same-object): a resumed group can be suspended and resumed again by the same
+   object; the general statement is C06_suspend_resume_commit_eq_commit_guarded with reopen = false *)
+Theorem C06_resume_again_same_object_works :
+  let s := run cat_2a true [Start; Ins 41; Suspend; Resume [TName [41]]] init in
+  broken (suspend_resume cat_2a true false s) = false /\
+  snd (step cat_2a true Commit (suspend_resume cat_2a true false s)) = ROk.
+Proof. exact resume_again_same_object_works. Qed.
+Print Assumptions C06_resume_again_same_object_works.
 
 (* ---- clause 3: a commit that raises changes nothing on disk; a refusal
    (BzrCheckError from the checks, BzrError) changes nothing at all *)
